@@ -424,15 +424,20 @@ lcm_gcd_exact(To& to, const From1& x, const From2& y, Rounding_Dir dir) {
     to = 0;
     return V_EQ;
   }
-  To a_x;
-  To a_y;
+  // The absolute values must be representable in the destination:
+  // compute them under To_Policy and, on failure, let `to' hold
+  // what the returned result describes.
+  To a_x = to;
+  To a_y = to;
   Result r;
-  r = abs<From1_Policy, From1_Policy>(a_x, x, dir);
+  r = abs<To_Policy, From1_Policy>(a_x, x, dir);
   if (r != V_EQ) {
+    to = a_x;
     return r;
   }
-  r = abs<From2_Policy, From2_Policy>(a_y, y, dir);
+  r = abs<To_Policy, From2_Policy>(a_y, y, dir);
   if (r != V_EQ) {
+    to = a_y;
     return r;
   }
   To gcd;
